@@ -269,7 +269,7 @@ func (c *Ctx) charstringDecryption() {
 }
 
 func (c *Ctx) readDefaults() {
-	info := c.info("type1")
+	_ = c.info("type1")
 	fd := c.funcDecl("type1", "", "Read")
 	fname := "type1.Read"
 	// the constants that can flow into the destination of each entry (on the path where the
@@ -308,28 +308,10 @@ func (c *Ctx) readDefaults() {
 		got := fmt.Sprint(consts)
 		c.check(n > 0 && len(consts) == 1 && consts[0] == 4, "T1-DEFAULTS", fname, "default of lenIV = 4", fd.Pos(), got, "the default substituted for a missing lenIV is "+got+", the Type 1 book says 4")
 	}
-	// FontMatrix default
-	okFM := false
-	ast.Inspect(fd.Body, func(n ast.Node) bool {
-		cl, ok := n.(*ast.CompositeLit)
-		if !ok || len(cl.Elts) != 6 {
-			return true
-		}
-		var vals []string
-		for _, e := range cl.Elts {
-			if call, ok := e.(*ast.CallExpr); ok && len(call.Args) == 1 {
-				if v, ok := constOf(info, call.Args[0]); ok {
-					f, _ := constant.Float64Val(constant.ToFloat(v))
-					vals = append(vals, fmt.Sprint(f))
-				}
-			}
-		}
-		if strings.Join(vals, " ") == "0.001 0 0 0.001 0 0" {
-			okFM = true
-		}
-		return true
-	})
-	c.check(okFM, "T1-DEFAULTS", fname, "default FontMatrix = [0.001 0 0 0.001 0 0]", fd.Pos(), "", "the default FontMatrix is not [0.001 0 0 0.001 0 0]")
+	// FontMatrix default: decided by evaluation of the code that looks the entry up, with a dictionary
+	// that has none (ext_y4.go) — in Read or in a helper, as an array of objects or as a matrix literal
+	okFM, whyFM := c.fontMatrixDefaultY4(read)
+	c.check(okFM, "T1-DEFAULTS", fname, "default FontMatrix = [0.001 0 0 0.001 0 0]", fd.Pos(), "", "the default FontMatrix is not [0.001 0 0 0.001 0 0]: "+whyFM)
 	// codes of absent glyphs → .notdef
 	// (decided on the SSA form, ext_w2.go: the loop may live in Read or in a helper)
 	okND, whyND := c.notdefMappingW2(read)
